@@ -44,6 +44,9 @@ def obligations(tier):
     for cv in (True, False):
         n = 4 if tier == "quick" else 6
         obs.append(Ob(f"Counter(count_value={cv})/n={n}", dict(n=n, count_value=cv), DEF, fn="run_counter", weight=n, budget_s=600))
+    # a member swapped for one of the same name that reads another input (remove_indicator + add_indicator)
+    for name, kw, n in (("STDEV", dict(period=2), 5), ("BBANDS", dict(period=2), 5), ("KC", dict(period=2), 6), ("STDEVTHRES", dict(period=2), 5)):
+        obs.append(Ob(f"swap-input/{name}{kw}/close->open/n={n}", dict(spec=["ind", name, kw], n=n, input="open"), DEF, fn="run_swap", weight=n * 3, budget_s=300))
     return obs
 
 
